@@ -142,7 +142,7 @@ def run(ctx):
                            "what": "the Filter.Filter type switch has case types the model/harness table does not list (or lost some): "
                                    "the correspondence for C09_sound/complete/flag does not cover them"}, found_input=False)
 
-    out = os.path.join(ctx.workdir, "cases.jsonl")
+    out = os.path.join(ctx.workdir, "cases-s%d-p%d.jsonl" % (ctx.seed, os.getpid()))
     if ctx.replay:
         rc, o = vlib.sh([binp, "-replay", ctx.replay], timeout=600)
         print(o[-3000:])
@@ -215,10 +215,26 @@ def run(ctx):
             nontrivial += 1
         cases.append(c)
 
+    try:
+        os.replace(out, os.path.join(ctx.workdir, "cases.jsonl"))   # keep the last run's cases for inspection
+    except OSError:
+        pass
+
     # ---- model vs implementation, inside Coq ----
     per = 400
     shards = [cases[i:i + per] for i in range(0, len(cases), per)]
-    res = vlib.coq_run_shards(PROP, [shard_text(s) for s in shards], jobs=4)
+    # case files and the harness output are private to this run: several ./check C09 processes
+    # (different seeds) may run at the same time and must not overwrite each other's files
+    tag = "%s_s%d_p%d" % (PROP, ctx.seed, os.getpid())
+    try:
+        res = vlib.coq_run_shards(tag, [shard_text(s) for s in shards], jobs=4)
+    finally:
+        import glob
+        for f in glob.glob(os.path.join(vlib.GEN, "cases_%s_*" % tag)) + glob.glob(os.path.join(vlib.GEN, ".cases_%s_*" % tag)):
+            try:
+                os.remove(f)
+            except OSError:
+                pass
     mism = []
     for s, (okk, idx, raw) in zip(shards, res):
         if not okk:
